@@ -278,7 +278,22 @@ func checkErrorsReturned(c *Ctx, rule string, f *ssa.Function, errIdx int, skip 
 			if !pathExists(f, call, r, nil, nil) {
 				continue
 			}
-			if pathExists(f, call, r, factNil(vIs(ev), true), nil) {
+			// the test may be made on the error itself or on a variable that holds it (err = e)
+			isErr := func(v ssa.Value) bool {
+				if v == ev {
+					return true
+				}
+				has := false
+				for _, o := range originsOf(v) {
+					if oIsValue(ev)(o) {
+						has = true
+					} else if !isNilConst(o.V) {
+						return false
+					}
+				}
+				return has
+			}
+			if pathExists(f, call, r, factNil(isErr, true), nil) {
 				ok = false
 				why = "a success return is reachable after the call without passing the test err == nil (" + c.P.InstrPos(r) + ")"
 			}
